@@ -117,19 +117,25 @@ class IntMachine:
 
 class StateMachine:
     name = "ParserState"
-    ops = ("checkpoint", "ok", "restore", "push", "drop", "advance", "rule_push", "rule_pop", "atomic_inc", "atomic_zero")
+    ops = ("checkpoint", "ok", "restore", "push", "drop", "advance", "rule_push", "rule_pop", "atomic_inc", "atomic_zero", "atomic_enter", "atomic_exit")
 
     def new(self):
         from pest.state import ParserState
 
-        ref = {"cur": {"pos": 0, "user": [], "rule": [], "atomic": 0}, "snaps": [], "n": 0}
+        # "nest" records how checkpoints and atomic_checkpoint blocks are nested (they always nest properly in the parser:
+        # a rule's atomic block lies inside or around a checkpoint span, never across one)
+        ref = {"cur": {"pos": 0, "user": [], "rule": [], "atomic": 0, "hide": False}, "snaps": [], "n": 0, "nest": [], "blocks": [], "cms": []}
         return ParserState("x" * 64, 0, None), ref
 
     def enabled(self, impl, ref):
         cur = ref["cur"]
         ops = ["checkpoint", "push"]
-        if ref["snaps"]:
+        if ref["nest"] and ref["nest"][-1] == "cp":
             ops += ["ok", "restore"]
+        if ref["nest"] and ref["nest"][-1] == "ab":
+            ops.append("atomic_exit")
+        if ref["nest"].count("ab") < 2:
+            ops.append("atomic_enter")
         if cur["user"]:
             ops.append("drop")
         if cur["pos"] < 2:
@@ -150,13 +156,33 @@ class StateMachine:
         cur = ref["cur"]
         if op == "checkpoint":
             ref["snaps"].append(copy.deepcopy(cur))
+            ref["nest"].append("cp")
             impl.checkpoint()
         elif op == "ok":
             ref["snaps"].pop()
+            ref["nest"].pop()
             impl.ok()
         elif op == "restore":
+            hide = cur["hide"]
             ref["cur"] = ref["snaps"].pop()
+            ref["cur"]["hide"] = hide          # pair hiding is not part of a checkpoint
+            ref["nest"].pop()
             impl.restore()
+        elif op == "atomic_enter":
+            # what Rule.parse does for an atomic rule: enter the block, raise the depth, hide pairs
+            ref["blocks"].append((cur["atomic"], cur["hide"]))
+            ref["nest"].append("ab")
+            cm = impl.atomic_checkpoint()
+            cm.__enter__()
+            ref["cms"].append(cm)
+            cur["atomic"] += 1
+            cur["hide"] = True
+            impl.atomic_depth += 1
+            impl.hide_pairs = True
+        elif op == "atomic_exit":
+            ref["cur"]["atomic"], ref["cur"]["hide"] = ref["blocks"].pop()
+            ref["nest"].pop()
+            ref["cms"].pop().__exit__(None, None, None)
         elif op == "push":
             v = f"v{ref['n']}"
             ref["n"] += 1
@@ -185,11 +211,11 @@ class StateMachine:
 
     def observe(self, impl):
         return (impl.pos, list(impl.user_stack), list(impl.rule_stack), int(impl.atomic_depth),
-                impl.user_stack.peek() if len(impl.user_stack) else None)
+                impl.user_stack.peek() if len(impl.user_stack) else None, bool(impl.hide_pairs))
 
     def expect(self, ref):
         cur = ref["cur"]
-        return (cur["pos"], list(cur["user"]), list(cur["rule"]), cur["atomic"], cur["user"][-1] if cur["user"] else None)
+        return (cur["pos"], list(cur["user"]), list(cur["rule"]), cur["atomic"], cur["user"][-1] if cur["user"] else None, cur["hide"])
 
     def internal_object(self, impl):
         return impl
